@@ -359,6 +359,13 @@ impl Prop for C19 {
         let path = x.path(FILE);
         x.begin_op(99);
         std::fs::write(&path, &bytes).expect("harness: write input file to the sim disk");
+        // an earlier call on the same thread (another, cut-short file) must not leak into this one
+        if case.hash_seed % 4 == 0 {
+            x.begin_op(98);
+            let other: &[u8] = b"EARLIER\nQBL\nminimize\n2\n1\n1\n1 1 2.0\n0.0\n";
+            let _ = x.sut(|| ommx::qplib::QplibFile::from_reader(other).map(|_| ()));
+            x.count("probe.earlier_call_on_the_same_thread");
+        }
         x.begin_op(0);
         let res = if case.via_bytes {
             // load_file_bytes is load_file followed by the encoding of the message: decoded again it must be the same
